@@ -405,7 +405,7 @@ def parse_kani_output(out):
     if m:
         failed_n, checks_total = int(m.group(1)), int(m.group(2))
     failed = []
-    for mm in re.finditer(r"Failed Checks: (.*?)\n\s*File: \"([^\"]+)\", line (\d+), in (\S+)", out):
+    for mm in re.finditer(r"Failed Checks: (.*?)\n\s*File: \"([^\"]+)\", line (\d+), in (\S+)", out, re.S):
         failed.append({"desc": mm.group(1).strip(), "file": mm.group(2), "line": int(mm.group(3)), "in": mm.group(4)})
     covers = re.findall(r"Status: (SATISFIED|UNSATISFIABLE|UNREACHABLE|UNDETERMINED)\n\s*Description: \"cover[^\"]*\"", out)
     cov2 = re.findall(r"\*\* (\d+) of (\d+) cover properties satisfied", out)
@@ -418,7 +418,12 @@ def extract_concrete_test(out):
     """The concrete-playback unit test of a FAILED check (not of a cover property)."""
     blocks = re.findall(r"Concrete playback unit test for `[^`]+`:\n```\n(.*?)```", out, re.S)
     bad = [b for b in blocks if not re.search(r"/// Check for `cover`", b)]
-    return bad[0] if bad else None
+    if not bad:
+        return None
+    # an assertion message may span several lines: keep every line before `#[test]` a doc comment
+    head, sep, rest = bad[0].partition("#[test]")
+    head = "\n".join(l if (l.startswith("///") or not l.strip()) else "/// " + l for l in head.split("\n"))
+    return head + sep + rest
 
 
 def run_kani_harness(unit, scratch, features_off=False, playback=False):
